@@ -350,7 +350,7 @@ func p4Resize(r *Run, rep *core.Report, prop string, mm *core.MapModel) {
 	for _, sp := range specsFor(r, f) {
 		name := fn(f) + sp.String(f)
 		rep.Spec(name)
-		m := &core.Machine[rzOrd]{P: r.P, Fn: f, Spec: sp}
+		m := &core.Machine[rzOrd]{P: r.P, Fn: f, Spec: sp, Inline: helperInline(r)}
 		var publishes []ssa.Instruction
 		m.Step = func(ctx *core.Ctx[rzOrd], s rzOrd, in ssa.Instruction) []rzOrd {
 			c, ok := in.(ssa.CallInstruction)
@@ -374,8 +374,18 @@ func p4Resize(r *Run, rep *core.Report, prop string, mm *core.MapModel) {
 					}
 					s.Published = true
 					// published value must be a fresh table of this activation
-					val := c.Common().Args[len(c.Common().Args)-1]
-					if fi := unpublishedAt(r, f, val, in, 0); !fi.OK {
+					val := ctx.Resolve(core.StripConv(c.Common().Args[len(c.Common().Args)-1]))
+					at := ssa.Instruction(in)
+					host := in.Parent()
+					if ctx.Frame != nil {
+						// publishing store inside a helper: judge the argument at the outermost call site
+						fr := ctx.Frame
+						for fr.Up != nil {
+							fr = fr.Up
+						}
+						at, host = fr.Site.(ssa.Instruction), fr.Site.Parent()
+					}
+					if fi := unpublishedAt(r, host, val, at, 0); !fi.OK {
 						ctx.Report(in, "P4", "the published table is not the fresh table built by this resize: "+fi.Why)
 					}
 				}
@@ -461,8 +471,7 @@ func p4Resize(r *Run, rep *core.Report, prop string, mm *core.MapModel) {
 			for root := range roots {
 				okv := false
 				why := root.Name() + " is not an atomic load of the table pointer"
-				if addr, isLoad := atomicLoadAddr(root); isLoad {
-					a := core.Addr(addr)
+				if a, isLoad := atomicLoadPath(root); isLoad {
 					if a.Owner == mm.Name && a.Field == mm.TableF {
 						ld := core.StripConv(root).(ssa.Instruction)
 						if reaches(cas, ld, nil) && !reachAvoiding(f, core.Spec{}, cas)(ld) {
@@ -612,7 +621,7 @@ func p7Clear(r *Run, rep *core.Report, prop string, mm *core.MapModel) {
 	name := fn(f) + sp.String(f)
 	rep.Spec(name)
 	ords := exitOrdinals(f)
-	m := &core.Machine[bool]{P: r.P, Fn: f, Spec: sp}
+	m := &core.Machine[bool]{P: r.P, Fn: f, Spec: sp, Inline: helperInline(r)}
 	type res struct {
 		ok bool
 		at core.Node[bool]
@@ -622,8 +631,17 @@ func p7Clear(r *Run, rep *core.Report, prop string, mm *core.MapModel) {
 		if c, ok := in.(ssa.CallInstruction); ok {
 			if op, addr, ok := core.AtomicOp(c); ok && op != "Load" {
 				if a := core.Addr(addr); a.Owner == mm.Name && a.Field == mm.TableF {
-					val := c.Common().Args[len(c.Common().Args)-1]
-					if fi := unpublishedAt(r, f, val, in, 0); fi.OK {
+					val := ctx.Resolve(core.StripConv(c.Common().Args[len(c.Common().Args)-1]))
+					at := ssa.Instruction(in)
+					host := in.Parent()
+					if ctx.Frame != nil {
+						fr := ctx.Frame
+						for fr.Up != nil {
+							fr = fr.Up
+						}
+						at, host = fr.Site.(ssa.Instruction), fr.Site.Parent()
+					}
+					if fi := unpublishedAt(r, host, val, at, 0); fi.OK {
 						s = true
 					}
 				}
@@ -765,7 +783,7 @@ func bucketOfAddr(addr ssa.Value) ssa.Value {
 
 func p10RMW(r *Run, rep *core.Report, prop string, mm *core.MapModel) {
 	n := 0
-	for _, f := range []*ssa.Function{mm.Core, mm.Append, mm.Copy} {
+	for _, f := range mapFuncs(r, mm) {
 		rep.Fn(fn(f))
 		core.Instrs(f, func(in ssa.Instruction) {
 			var addr, val ssa.Value
